@@ -8,6 +8,21 @@ VERIF = os.path.dirname(os.path.dirname(os.path.abspath(__file__)))
 
 # property -> (category, technique, text, note, design_ref)
 CHECKS = {
+    'C05': ('exploration', 'residual and structure monitors on every factorization call (dense reconstruction, isometry/unitarity, '
+            'spectra against numpy, Moore-Penrose identities, charge/leg bookkeeping, storage invariants of the factors)',
+            'Random rank-2 block-sparse inputs (pipes from combined legs, non-blocked legs, one-sided sectors, stored-zero and '
+            'rank-deficient blocks, nonzero qtotal, complex) are passed through svd/qr/lq/eigh/eig/eigvals(h)/expm/pinv/polar/'
+            'orthogonal_columns/speigs over their option lattice; each result is judged by residuals and structure, never by '
+            'comparing factors to numpy factors (gauge freedom).',
+            'numpy/scipy spectra and expm as ground truth; tolerance 1e-9 relative', 'DESIGN.md §C05'),
+    'C06': ('exploration', 'bijection / placement (unique-id tensor) / fusion-rule monitors over an exhaustively enumerated space of '
+            'small legs and pipes plus random larger pipes',
+            'For every enumerated pipe map_incoming_flat is evaluated on ALL index tuples and must be a bijection that agrees '
+            'with where combine_legs places the entries of a unique-id tensor, the outgoing charges must obey the fusion rule, '
+            'split(combine(a)) must equal a exactly, and conj/outer_conj/to_LegCharge/sort/bunch/project/extend/flip must '
+            'preserve the charge of every surviving index. All single small legs are enumerated (exhaustive); pairs are '
+            'enumerated in a fixed order (strided in quick, all in thorough).',
+            'small space: 1-3 blocks, sizes 1-2, 3 charge values, one charge with mod 1-3', 'DESIGN.md §C06'),
     'C01': ('exploration', 'dense numpy shadow model stepped in lock-step with random programs of public np_conserved operations '
             '(reference-model monitor after every step)',
             'Random programs (1-8 quick / 1-20 thorough public operations) run on the real Arrays in the compiled and the '
